@@ -41,7 +41,8 @@ package solvers
 //@   ensures [validatorConsultedOnce] result.solved && old(s.solutionValidator) != nil ==> validatorCalls() == old(validatorCalls()) + 1
 //@   ensures [noValidatorMeansSolved] old(s.solutionValidator) == nil ==> result.solved && validatorCalls() == old(validatorCalls())
 //@   ensures [solvedMeansLastVerdictTrue] result.solved && s.solutionValidator != nil ==> verdictAt(validatorCalls())
-//@   ensures [solvedKeepsStatement] result.solved ==> result.statement == statement && framework.wfLog(statement)
+//@   ensures [solvedKeepsStatement] result.solved ==> result.statement == statement
+//@   ensures [statementStaysWellFormed] framework.wfLog(statement)
 //@   ensures [rejectedIsDiscarded] !result.solved ==> result.statement == nil && len(statement.operations) == 0
 //@ end
 
@@ -74,12 +75,12 @@ package solvers
 
 // library model (assumed): the values / keys of a map as a new slice
 //@ func golang.org/x/exp/maps.Values
-//@   pure
+//@   fresh
 //@   ensures [assumed] len(result) == len(m)
 //@   note assumed library model of golang.org/x/exp/maps.Values (reads the map, returns a new slice)
 //@ end
 //@ func golang.org/x/exp/maps.Keys
-//@   pure
+//@   fresh
 //@   ensures [assumed] len(result) == len(m)
 //@   note assumed library model of golang.org/x/exp/maps.Keys (reads the map, returns a new slice)
 //@ end
@@ -93,6 +94,7 @@ package solvers
 //@   requires pendingJob != nil && stOpen(statement)
 //@   modifies *
 //@   ensures [failedIsDiscarded] result != nil && !result.solved && result.statement == nil && len(statement.operations) == 0
+//@   ensures [statementStaysWellFormed] framework.wfLog(statement)
 //@ end
 
 // The simulation places the preemptor on the SAME statement that holds the evictions.
@@ -112,36 +114,223 @@ package solvers
 
 //@ func (*byPodSolver).runSimulation
 //@   props C06
-//@   requires s != nil && scnOK(scenario) && stOpen(statement) && tasksOK(victimTasks)
+//@   requires s != nil
+//@   requires scnOK(scenario)
+//@   requires stOpen(statement)
+//@   requires tasksOK(victimTasks)
 //@   modifies *
-//@   ensures [solvedOnGivenStatement] result != nil && result.solved ==> result.statement == statement && stOpen(statement)
+//@   ensures [solvedOnGivenStatement] result != nil && result.solved ==> result.statement == statement
+//@   ensures [statementStaysWellFormed] stOpen(statement)
 //@   ensures [solvedWasValidated] result != nil && result.solved && s.solutionValidator != nil ==> verdictAt(validatorCalls())
 //@   ensures [failedIsDiscarded] result != nil && !result.solved ==> result.statement == nil && len(statement.operations) == 0
-//@   ensures [undecidedStaysOpen] result == nil ==> stOpen(statement) && logKept(statement) && cellsKept(victimTasks)
+//@   ensures [undecidedKeepsLog] result == nil ==> logKept(statement) && cellsKept(victimTasks)
 //@ end
 
 // Victim subset chain: what is evicted for a node are tasks the scenario lists for that node, and the
 // checkpoint handed back is the log position before those evictions.
 //@ func (*byPodSolver).evictPotentialVictimsFromNode
 //@   props C06
-//@   requires s != nil && scnOK(scenario) && stOpen(statement)
+//@   usestable Checkpoint
+//@   requires s != nil && session != nil && scnOK(scenario) && stOpen(statement)
 //@   modifies *
 //@   ensures [checkpointBeforeEvictions] result2 == nil ==> result0 != nil && *result0 == old(len(statement.operations))
 //@   ensures [onlyScenarioVictimsEvicted] result2 == nil ==> evictsOf(statement, old(len(statement.operations)), result1) && len(statement.operations) == old(len(statement.operations)) + len(result1)
 //@   ensures [onlyEvictionsAdded] forall j int :: old(len(statement.operations)) <= j && j < len(statement.operations) ==> framework.isEvictOp(statement.operations[j])
 //@   ensures [statementStaysOpen] stOpen(statement) && logKept(statement)
+//@   ensures [victimsNonNil] result2 == nil ==> tasksOK(result1)
+//@ end
+
+//@ func (*byPodSolver).updateFeasibleNodes
+//@   props C06
+//@   requires s != nil && s.feasibleNodes != nil && ssn != nil
+//@   requires tasksOK(victimTasks)
+//@   assume ssn.ClusterInfo != nil
+//@   note assume ssn.ClusterInfo != nil: the session skeleton (framework.sessOK) is not re-established by Statement.Rollback / Discard (`modifies *`) and `stable Session.ClusterInfo` is not usable yet (it slows down framework's Commit proof); same convention as the `assume envOK` of actions/common
+//@   modifies s.feasibleNodes[*]
+//@   fresh
+//@   loop 1
+//@     invariant 0 - 1 <= rangeindex && rangeindex < len(victimTasks)
+//@     invariant newFeasibleNodes != nil && fresh(newFeasibleNodes)
+//@     invariant forall k in newFeasibleNodes :: !old(k in s.feasibleNodes)
+//@     invariant forall k string :: old(k in s.feasibleNodes) ==> k in s.feasibleNodes
+//@     decreases len(victimTasks) - rangeindex
+//@   ensures [onlyNewNodesRecorded] forall k in result :: !old(k in s.feasibleNodes)
+//@   ensures [oldNodesKept] forall k string :: old(k in s.feasibleNodes) ==> k in s.feasibleNodes
+//@ end
+
+//@ func (*byPodSolver).feasibleNodesRollback
+//@   props C06
+//@   requires s != nil
+//@   modifies s.feasibleNodes[*]
+//@   loop 1
+//@     invariant forall k string :: (old(k in s.feasibleNodes) && !(k in newFeasibleNodes) ==> k in s.feasibleNodes) && (k in s.feasibleNodes ==> old(k in s.feasibleNodes))
+//@     invariant forall k in visited :: !(k in s.feasibleNodes)
+//@   ensures [addedNodesRemoved] forall k in newFeasibleNodes :: !(k in s.feasibleNodes)
+//@   ensures [otherNodesKept] forall k string :: (old(k in s.feasibleNodes) && !(k in newFeasibleNodes) ==> k in s.feasibleNodes) && (k in s.feasibleNodes ==> old(k in s.feasibleNodes))
+//@ end
+
+//@ func getVictimTasks
+//@   props C06
+//@   fresh
+//@   ensures [concat] len(result) == len(recordedVictimsTasks) + len(potentialVictimsTasks)
+//@   ensures [recordedFirst] forall i int :: 0 <= i && i < len(recordedVictimsTasks) ==> result[i] == recordedVictimsTasks[i]
+//@   ensures [potentialAfter] forall i int :: 0 <= i && i < len(potentialVictimsTasks) ==> result[len(recordedVictimsTasks) + i] == potentialVictimsTasks[i]
+//@   ensures [nonNilKept] tasksOK(recordedVictimsTasks) && tasksOK(potentialVictimsTasks) ==> tasksOK(result)
+//@ end
+
+//@ func getNodesOfJob
+//@   props C06
+//@   requires pj != nil ==> podgroup_info.setsOK(pj)
+//@   nopanic off
+//@   note nopanic off: the values of the victim job's pod maps are dereferenced (task.NodeName); that they are never nil (podgroup_info.allTasksOK, kept by the C14 contracts of the job mutators) cannot be carried through the caller's `modifies *` statement operations
+//@   fresh
+//@   loop 1
+//@     invariant pjNodeNames != nil && fresh(pjNodeNames)
+//@ end
+
+// One node at a time: evict the scenario's victims of that node, simulate; if the simulation does not place
+// the preemptor the evictions are rolled back to the checkpoint before the next node is tried.
+//@ func (*byPodSolver).solveOnPotentialNodes
+//@   props C06
+//@   usestable byPodSolver.feasibleNodes ByNodeScenario.BaseScenario BaseScenario.preemptor BaseScenario.pendingTasks Checkpoint
+//@   requires s != nil && s.feasibleNodes != nil && ssn != nil
+//@   requires scnOK(scenario)
+//@   requires stOpen(statement)
+//@   modifies *
+//@   loop 1
+//@     modifies *
+//@     invariant 0 - 1 <= rangeindex && rangeindex < len(potentialVictimNodeNames)
+//@     invariant stOpen(statement)
+//@     invariant len(statement.operations) == old(len(statement.operations))
+//@     decreases len(potentialVictimNodeNames) - rangeindex
+//@   ensures [resultXorError] result1 != nil ==> result0 == nil
+//@   ensures [solvedOnGivenStatement] result0 != nil && result0.solved ==> result0.statement == statement
+//@   ensures [solvedWasValidated] result0 != nil && result0.solved && s.solutionValidator != nil ==> verdictAt(validatorCalls())
+//@   ensures [failedIsDiscarded] result0 != nil && !result0.solved ==> result0.statement == nil && len(statement.operations) == 0
+//@   ensures [statementStaysWellFormed] stOpen(statement)
+//@   ensures [unsolvedNodesRolledBack] result0 == nil && result1 == nil ==> len(statement.operations) == old(len(statement.operations))
+//@ end
+
+// One scenario, one statement: created here, holds the evictions of the recorded victims, then those of the
+// potential victims node by node, and the placement of the preemptor. Returned only with a solved result;
+// every other path discards it.
+//@ func (*byPodSolver).solve
+//@   props C06
+//@   usestable byPodSolver.feasibleNodes ByNodeScenario.BaseScenario BaseScenario.preemptor BaseScenario.pendingTasks PodGroupInfo.PodSets map[string]*subgroup_info.PodSet
+//@   requires s != nil && s.feasibleNodes != nil && session != nil
+//@   # shape of the scenarios the builder hands over (NewByNodeScenario: skeleton non-nil, at least one pending task;
+//@   # potential victims are pod-map values; the session's jobs have no nil pod set): assumed, listed in the evidence
+//@   assume scnOK(scenario)
+//@   assume scenario.BaseScenario.session != nil && scenario.BaseScenario.session.ClusterInfo != nil
+//@   assume len(scenario.BaseScenario.potentialVictimsTasks) > 0 ==> scenario.BaseScenario.potentialVictimsTasks[len(scenario.BaseScenario.potentialVictimsTasks) - 1] != nil
+//@   assume forall k in scenario.BaseScenario.session.ClusterInfo.PodGroupInfos :: scenario.BaseScenario.session.ClusterInfo.PodGroupInfos[k] == nil || podgroup_info.setsOK(scenario.BaseScenario.session.ClusterInfo.PodGroupInfos[k])
+//@   note the scenario builder (NewPodAccumulatedScenarioBuilder / GetValidScenario / GetNextScenario: mutual recursion through the filter interface and the heap-based victims queue) is not under contract; what solve needs of its scenarios is assumed at entry
+//@   modifies *
+//@   ensures [resultNonNil] result != nil
+//@   ensures [solvedHasOwnStatement] result.solved ==> result.statement != nil && fresh(result.statement)
+//@   ensures [solvedStatementKnown] result.solved ==> framework.wfKnown(result.statement)
+//@   ensures [solvedStatementRev] result.solved ==> framework.wfRev(result.statement)
+//@   ensures [solvedStatementBack] result.solved ==> framework.wfBack(result.statement)
+//@   ensures [solvedStatementTask] result.solved ==> framework.wfTask(result.statement)
+//@   ensures [solvedWasValidated] result.solved && s.solutionValidator != nil ==> verdictAt(validatorCalls())
+//@   ensures [failedHasNoStatement] !result.solved ==> result.statement == nil
+//@   lemma [solvedOnTheStatementOfTheEvictions] result.solved ==> result.statement == statement
+//@   lemma [failedIsDiscarded] !result.solved ==> len(statement.operations) == 0
 //@ end
 
 // ---- JobSolver (C03 / C06) ------------------------------------------------------------------------------
 //@ define gangSat(j *podgroup_info.PodGroupInfo) bool = forall k in j.PodSets :: j.PodSets[k].numActiveUsedTasks >= j.PodSets[k].minAvailable
 
-// One pending-task prefix: scenarios are tried until one is solved; only a solved result is returned.
+// ---- scenario builder (frame only) -----------------------------------------------------------------------
+// Nothing is claimed about WHICH scenarios the builder produces (C05's completeness of the search is not decided);
+// these contracts only keep the builder's bodies out of the solver units. The constructor runs the filter
+// constructors (k8s scheduler plugin interfaces, topology trees): outside the subset.
+// only non-nil filters are appended by the constructor (each `if f != nil { append }`)
+//@ define filtersOK(asb *PodAccumulatedScenarioBuilder) bool = forall i int :: 0 <= i && i < len(asb.scenarioFilters) ==> asb.scenarioFilters[i] != nil
+//@ func NewPodAccumulatedScenarioBuilder
+//@   props C06
+//@   trusted
+//@   note trusted: builds the first scenario and the scenario filters (node-affinity filter = k8s scheduler plugin interfaces; topology filter = sub-group trees): outside the subset; only "returns a builder" is assumed
+//@   modifies *
+//@   ensures [builderNonNil] result != nil
+//@ end
+//@ func (*PodAccumulatedScenarioBuilder).GetValidScenario
+//@   props C06
+//@   requires asb != nil
+//@   assume filtersOK(asb)
+//@   note assume filtersOK: the constructor appends only non-nil filters and scenarioFilters is never reassigned
+//@   nopanic off
+//@   note nopanic off: no claim; the unit exists so that callers see a call with frame `modifies *` instead of the inlined body
+//@   modifies *
+//@ end
+//@ func (*PodAccumulatedScenarioBuilder).GetNextScenario
+//@   props C06
+//@   requires asb != nil
+//@   nopanic off
+//@   note nopanic off: no claim; the unit exists so that callers see a call with frame `modifies *` instead of the inlined body
+//@   modifies *
+//@ end
+
+// C05: "scenario filters ... must only prune hopeless scenarios" - at the builder: a scenario is dropped only
+// because the filter consulted last answered "not valid" WITHOUT an error (a failing filter never prunes), and
+// without filters nothing is pruned.
+//@ import asf "github.com/NVIDIA/KAI-scheduler/pkg/scheduler/actions/common/solvers/accumulated_scenario_filters"
+//@ stable PodAccumulatedScenarioBuilder.scenarioFilters
+//@ stable PodAccumulatedScenarioBuilder.lastScenario
+//@ stable slicetype []accumulated_scenario_filters.Interface
+//@ func (*PodAccumulatedScenarioBuilder).isScenarioValid
+//@   props C05
+//@   usestable PodAccumulatedScenarioBuilder.scenarioFilters PodAccumulatedScenarioBuilder.lastScenario []accumulated_scenario_filters.Interface
+//@   requires asb != nil
+//@   requires filtersOK(asb)
+//@   modifies *
+//@   loop 1
+//@     modifies *
+//@     invariant 0 - 1 <= rangeindex && rangeindex < len(asb.scenarioFilters)
+//@     invariant asf.filterCalls() >= old(asf.filterCalls())
+//@     decreases len(asb.scenarioFilters) - rangeindex
+//@   ensures [prunedOnlyByAFilterVerdict] !result0 ==> asf.filterCalls() > old(asf.filterCalls()) && !asf.filterOK(asf.filterCalls()) && !asf.filterErr(asf.filterCalls())
+//@   ensures [noFilterNoPrune] len(old(asb.scenarioFilters)) == 0 ==> result0
+//@ end
+
+// The victims-queue generator handed to NewJobsSolver (reclaim.getOrderedVictimsQueue$1, and the closures of
+// preempt / consolidation around utils.GetVictimsQueue): builds a new JobsOrderByQueues.
+//@ func type:GenerateVictimsQueue
+//@   modifies *
+//@   ensures [assumed] framework.logsSame()
+//@   note assumed: the generators build a fresh utils.JobsOrderByQueues from the session's jobs (contracts reclaim.getOrderedVictimsQueue$1, utils.GetVictimsQueue); they touch no statement
+//@ end
+
+// One pending-task prefix: scenarios are tried until one is solved; only a solved result is returned, and it was
+// validated by the validator the ACTION configured (the JobSolver's, handed to every by-pod solver).
 //@ func (*JobSolver).solvePartialJob
 //@   props C03 C06
+//@   usestable JobSolver.solutionValidator byPodSolver.solutionValidator
 //@   requires s != nil && ssn != nil && state != nil
+//@   requires s.generateVictimsQueue != nil
+//@   assume ssn.ClusterInfo != nil
+//@   assume forall i int :: 0 <= i && i < len(s.feasibleNodes) ==> s.feasibleNodes[i] != nil
+//@   assume tasksOK(state.recordedVictimsTasks)
+//@   note assumed at entry (session skeleton, non-nil nodes of the feasible list, non-nil recorded victim tasks): data invariants of the snapshot / of pod maps that the caller's loop cannot carry through the `modifies *` statement operations
 //@   modifies *
+//@   loop 1
+//@     invariant 0 - 1 <= rangeindex && rangeindex < len(s.feasibleNodes)
+//@     invariant feasibleNodeMap != nil && fresh(feasibleNodeMap)
+//@     decreases len(s.feasibleNodes) - rangeindex
+//@   loop 2
+//@     invariant 0 - 1 <= rangeindex && rangeindex < len(state.recordedVictimsTasks)
+//@     invariant feasibleNodeMap != nil && fresh(feasibleNodeMap)
+//@     decreases len(state.recordedVictimsTasks) - rangeindex
+//@   loop 3
+//@     modifies *
+//@     invariant feasibleNodeMap != nil
 //@   ensures [onlySolvedReturned] result != nil ==> result.solved
-//@   ensures [solvedHasOpenStatement] result != nil ==> result.statement != nil && framework.wfLog(result.statement)
+//@   ensures [solvedHasStatement] result != nil ==> result.statement != nil
+//@   ensures [solvedStatementKnown] result != nil ==> framework.wfKnown(result.statement)
+//@   ensures [solvedStatementRev] result != nil ==> framework.wfRev(result.statement)
+//@   ensures [solvedStatementBack] result != nil ==> framework.wfBack(result.statement)
+//@   ensures [solvedStatementTask] result != nil ==> framework.wfTask(result.statement)
+//@   ensures [solvedStatementIsNew] result != nil ==> fresh(result.statement)
 //@   ensures [solvedWasValidated] result != nil && s.solutionValidator != nil ==> verdictAt(validatorCalls())
 //@ end
 
@@ -152,7 +341,9 @@ package solvers
 // for": the statement of a solution for a proper prefix of the tasks is discarded before the next prefix is tried.
 //@ func (*JobSolver).Solve
 //@   props C03 C06
+//@   usestable PodGroupInfo.PodSets map[string]*subgroup_info.PodSet solutionResult.statement JobSolver.generateVictimsQueue
 //@   requires s != nil && ssn != nil && podgroup_info.setsOK(pendingJob) && podgroup_info.allTasksOK(pendingJob)
+//@   requires s.generateVictimsQueue != nil
 //@   modifies *
 //@   loop 1
 //@     modifies *
